@@ -158,7 +158,14 @@ Program ==
              \o (IF PRE = "write" THEN <<[op |-> "WriteTo", h |-> 1]>> ELSE IF PRE = "diag" THEN <<[op |-> "Diag", h |-> 1]>> ELSE <<>>)
              \o hist
              \o << [op |-> "WriteTo", h |-> 1], [op |-> "Stream", stream |-> 1, from |-> 1],
-                   [op |-> "ReadPacket", h |-> 9, stream |-> 1], [op |-> "Diag", h |-> 1] >>]
+                   [op |-> "ReadPacket", h |-> 9, stream |-> 1], [op |-> "Diag", h |-> 1] >>
+             \* the twin: the same calls on a second packet that is never written or printed in between; equal states, equal bytes
+             \o (IF START = "full" /\ PRE # "none"
+                 THEN <<[op |-> "New", h |-> 7, type |-> TypeName(T)]>>
+                      \o [i \in 1..Len(SetUp) |-> [op |-> "Call", h |-> 7, m |-> SetUp[i][1], args |-> SetUp[i][2]]]
+                      \o [i \in 1..Len(hist) |-> IF hist[i].op = "Call" THEN [hist[i] EXCEPT !.h = 7] ELSE [op |-> "Diag", h |-> 1]]
+                      \o <<[op |-> "WriteTo", h |-> 7]>>
+                 ELSE <<>>)]
 
 Emit == Len(hist) = DEPTH => PrintT(<<"PROG", ToJson(Program)>>)
 =============================================================================
